@@ -15,7 +15,7 @@ RULE = ('one case = one real standard or policy audit under the socket / call / 
         '(accepts and closes at once, accepts and stays silent, stops listening, answers "Exceeded MaxStartups", answers slowly, answers normally).  Oracle over the peer\'s connection log and the in-process log: '
         'sockets created <= 1 (+1 SSH-1 fallback) + distinct probed host-key types + 9 x group-exchange algorithms + (41 for the rate check, 0 when skipped / client audit / no DH key exchange); KEXDH_INIT / GEX_REQUEST / GEX_INIT never on the first connection and '
         'at most one exchange per connection; no socket open at exit; DHEat.run / interactive rate test / process spawns never happen.  Non-trivial: the monitor saw >= 1 socket and the peer >= 1 connection; distinct = distinct (server behaviour, options)')
-REQUIRED = {'multi_target_footprints': 15, 'audits': 100, 'sockets_created': 300, 'connections_logged': 300, 'rate_phase_runs': 10, 'census_checks': 100, 'kex_requests_seen': 50}
+REQUIRED = {'ssh1_fallback_refused_again': 1, 'multi_target_footprints': 15, 'audits': 100, 'sockets_created': 300, 'connections_logged': 300, 'rate_phase_runs': 10, 'census_checks': 100, 'kex_requests_seen': 50}
 ASSUMPTIONS = ['"a fixed handful for group-exchange probing" = at most 9 connections per advertised group-exchange algorithm (1 range probe + 7 sizes + 1 OpenSSH follow-up); "a few dozen" for the rate check = at most 38 + 3 connection attempts',
                'closing is decided inside the process (weak-reference census of socket objects at interpreter exit), because at the peer every connection ends at process exit anyway']
 MANIFEST = {
@@ -293,8 +293,14 @@ def run_case(c):
         k = None
     elif fam == 'ssh1':
         script = {'banner': 'SSH-1.5-OpenSSH_1.2.3', 'proto': 1, 'ssh1': {'cmask': 0x48, 'amask': 0x0c}}
+        if c['i'] % 3 == 2:
+            # a peer that answers the SSH-1 fall-back connection the way it answered the first one ("Protocol major versions differ."): still one fall-back, two connections
+            del script['ssh1']
+            counters['ssh1_fallback_refused_again'] = 1
         r, p = audit.audit_server(script, ['-n'], monitors=MON, base=[], timeout=60)
-        check_footprint(r, p, None, False, viol, counters, ssh1=True, tag='ssh1')
+        check_footprint(r, p, None, False, viol, counters, ssh1=True, tag='ssh1' + ('' if 'ssh1' in script else ':differ-again'))
+        if r.status not in (0, 1, 2, 3):
+            viol.append(_v('C19/ssh1-fallback-ended-abnormally', 'the audit of an SSH-1-only peer ended with an undocumented status', status=r.status, tail=(r.out + r.err)[-300:]))
     elif fam == 'client':
         k = gen.random_kex(rng, names, {'db': 1}, (1, 6))
         r, p = audit.audit_client({'banner': 'SSH-2.0-OpenSSH_9.0', 'kex': k}, ['-n'], monitors=MON)
